@@ -343,7 +343,7 @@ impl Ctx {
     }
 
     /// Reservoir sample (deterministic in the seed) of small judged-and-agreeing calls.
-    fn remember_for_replay(&mut self, rule: &Value, data: &Value, out: &Outcome) {
+    pub fn remember_for_replay(&mut self, rule: &Value, data: &Value, out: &Outcome) {
         self.replay_seen += 1;
         let n = self.replay_seen;
         // cheap pre-filter before any text is produced: a 1-in-k thinning once the pool is full
